@@ -290,6 +290,19 @@ impl Visitor<Diagnostic> for RuleGraphReferenceableElements {
         node.recurse_visit(self)
     }
 
+    fn visit_simple_declaration(
+        &mut self,
+        node: &SimpleDeclaration,
+    ) -> Result<Self::Value, Diagnostic> {
+        // The initializer names the type that this is declared as so the
+        // declaration is the context for that reference
+        self.current_from = Some(node.type_name.name.clone());
+        self.declarations.add_node(&node.type_name.name);
+        let res = node.recurse_visit(self);
+        self.current_from = None;
+        res
+    }
+
     fn visit_structure_declaration(
         &mut self,
         node: &StructureDeclaration,
